@@ -98,6 +98,7 @@ type zipNaming struct {
 	srcSlash bool              // pass srcDir with a trailing "/"
 	dstSlash bool              // pass destDir with a trailing "/"
 	dstFresh bool              // round trip: destination does not exist yet (nested, to be created)
+	dstStale bool              // round trip: the destination already holds older, LONGER versions of the selected files
 	ordered  bool              // real names sort like the abstract ones (entry order comparable)
 }
 
@@ -105,6 +106,9 @@ func zipNamingOf(variant string) *zipNaming {
 	switch variant {
 	case "", "plain":
 		return &zipNaming{names: map[string]string{"a": "vz-a", "b": "vz-b", "c": "vz-c", "dest": "vz-dest", "dest2": "vz-dest2"}, ordered: true}
+	case "stale":
+		// extracting again into a destination that holds an earlier extraction: the files must be reproduced, not patched
+		return &zipNaming{names: map[string]string{"a": "vz-a", "b": "vz-b", "c": "vz-c", "dest": "vz-dest", "dest2": "vz-dest2"}, ordered: true, dstStale: true}
 	case "odd":
 		// a hidden file with a space and a ".." INSIDE the name, a name that STARTS with ".." (both ordinary names), unicode, a trailing dot
 		return &zipNaming{names: map[string]string{"a": ".vz a..b.txt", "b": "..vz.üé 日本", "c": "vz-c.", "dest": "vz de st.d", "dest2": "vz de st.d2"},
@@ -488,6 +492,7 @@ func replayZipRoundTrip(b Behaviour, opt *Options) *Failure {
 		dstArg += "/"
 	}
 	var zerr, uerr error
+	stalePrepared := false
 	if p, pv := callPanics(func() { zerr = files.ZipFolder(srcArg, zipFile, filter, step.Bool("rec")) }); p {
 		return &Failure{Step: 1, Sig: "zipfs: ZipFolder panicked on an ordinary tree", Got: fmt.Sprint(pv)}
 	}
@@ -507,6 +512,19 @@ func replayZipRoundTrip(b Behaviour, opt *Options) *Failure {
 	want := map[string][]byte{}
 	for _, fr := range anyFileRecs(step["want"]) {
 		want[nm.realPath(fr.path)] = zipContent(fr.content)
+	}
+	if nm.dstStale && !stalePrepared {
+		// second pass: put older, longer versions of the selected files into the destination and extract again
+		for p, w := range want {
+			fp := filepath.Join(dst, filepath.FromSlash(p))
+			must(os.MkdirAll(filepath.Dir(fp), 0o755))
+			must(os.WriteFile(fp, append(append([]byte{}, w...), []byte("--stale tail of an earlier, longer version--")...), 0o644))
+		}
+		stalePrepared = true
+		if p, pv := callPanics(func() { uerr = files.UnzipToFolder(zipFile, dstArg) }); p {
+			return &Failure{Step: 1, Sig: "zipfs: UnzipToFolder panicked on an archive written by ZipFolder", Got: fmt.Sprint(pv)}
+		}
+		after = zipSnapshot(root, dst)
 	}
 	got, other := zipScan(dst)
 	ctx := map[string]any{"ZipFolder_err": errText(zerr), "UnzipToFolder_err": errText(uerr), "archive_entries": names}
